@@ -707,3 +707,38 @@ mod tests {
         }
     }
 }
+
+
+/// The rendering of a custom enum that has a comment on a variant puts one variant per line but no
+/// commas between them (a listed finding of C14 / C16).  This puts the commas where the grammar
+/// wants them, so that a check can tell "nothing but the commas is wrong" from anything else: inside
+/// a block opened by a line `type <Name> (`, every line that is neither a comment nor the closing
+/// bracket and that is followed by another such line gets a trailing comma unless it has one.
+pub fn add_missing_enum_commas(text: &str) -> String {
+    let lines: Vec<&str> = text.split('\n').collect();
+    let mut out: Vec<String> = Vec::with_capacity(lines.len());
+    let mut in_block = false;
+    for (i, l) in lines.iter().enumerate() {
+        let t = l.trim();
+        if !in_block {
+            if t.starts_with("type ") && t.ends_with('(') {
+                in_block = true;
+            }
+            out.push(l.to_string());
+            continue;
+        }
+        if t == ")" {
+            in_block = false;
+            out.push(l.to_string());
+            continue;
+        }
+        let is_item = !t.is_empty() && !t.starts_with('#');
+        let more_items = lines[i + 1..].iter().map(|x| x.trim()).take_while(|x| *x != ")").any(|x| !x.is_empty() && !x.starts_with('#'));
+        if is_item && more_items && !t.ends_with(',') {
+            out.push(format!("{},", l.trim_end()));
+        } else {
+            out.push(l.to_string());
+        }
+    }
+    out.join("\n")
+}
